@@ -49,6 +49,7 @@ __all__ = [
 # stdlib imports
 import logging
 import datetime
+import hashlib
 import os
 import tempfile
 import http.cookiejar
@@ -486,7 +487,10 @@ class OFXClient:
 
         ofxget.scan_profile() overrides version/prettyprint/close_elements.
         """
-        filename = f"{self.org}-{self.fid}.profrs"
+        # The cache is specific to a server: ORG/FID don't identify one (they're
+        # optional, and several servers can share them), so key it by URL as well.
+        urlhash = hashlib.sha1((url or self.url).encode("utf_8")).hexdigest()[:12]
+        filename = f"{self.org}-{self.fid}-{urlhash}.profrs"
         persistdir = config.DATADIR / "fiprofiles"
         persistpath = persistdir / filename
 
